@@ -447,20 +447,29 @@ pub fn fax_decode(data: &[u8], params: &CCITTFaxDecodeParams) -> Result<Vec<u8>>
     use fax::{Color, decoder::{pels, decode_g4}};
 
     if params.k < 0 {
-        let columns = params.columns as usize;
+        // the decoder works with 16 bit line widths and row counts
+        let width = match u16::try_from(params.columns) {
+            Ok(w) if w > 0 => w,
+            _ => bail!("unsupported /Columns {} for CCITTFaxDecode", params.columns)
+        };
+        let height = match params.rows {
+            0 => None,
+            n => Some(t!(u16::try_from(n).map_err(|_| other!("unsupported /Rows {} for CCITTFaxDecode", n))))
+        };
+        let columns = width as usize;
         let rows = params.rows as usize;
 
-        let height = if params.rows == 0 { None } else { Some(params.rows as u16)};
         // the declared size is not trusted for the allocation
         let mut buf = Vec::with_capacity(columns.saturating_mul(rows).min(1 << 20));
-        decode_g4(data.iter().cloned(), columns as u16, height, |line| {
-            buf.extend(pels(line, columns as u16).map(|c| match c {
+        decode_g4(data.iter().cloned(), width, height, |line| {
+            buf.extend(pels(line, width).map(|c| match c {
                 Color::Black => 0,
                 Color::White => 255
             }));
-            assert_eq!(buf.len() % columns, 0, "len={}, columns={}", buf.len(), columns);
         }).ok_or(PdfError::Other { msg: "faxdecode failed".into() })?;
-        assert_eq!(buf.len() % columns, 0, "len={}, columns={}", buf.len(), columns);
+        if buf.len() % columns != 0 {
+            bail!("decoded length {} is not a multiple of {} columns", buf.len(), columns);
+        }
 
         if rows != 0 && buf.len() != columns * rows {
             bail!("decoded length does not match (expected {rows}∙{columns}, got {})", buf.len());
